@@ -162,6 +162,12 @@ def _setting_cell(kind, param, value):
             f = NaiveForecaster(strategy=value, window_length=cx.n + 3)
             g = NaiveForecaster(strategy=value, window_length=cx.n - 2)
             return (lambda: f.fit(cx.y.copy())), (lambda: g.fit(cx.y.copy())), f
+        if kind == "naive-season-too-long":
+            # the seasonal period is the window of the seasonal last-value strategy: one that is longer than the series does not fit
+            sp = {"by-one": cx.n + 1, "by-some": cx.n + 3, "twice": 2 * cx.n}[value]
+            f = NaiveForecaster(strategy="last", sp=sp)
+            g = NaiveForecaster(strategy="last", sp=cx.n - 2)
+            return (lambda: f.fit(cx.y.copy())), (lambda: g.fit(cx.y.copy())), f
         if kind == "reduce":
             reg = zoo.build_regressor("lin")
             base = {"strategy": "recursive", "window_length": 3, "scitype": "tabular-regressor"}
@@ -359,6 +365,8 @@ _add("setting:reduce:strategy:unknown", _setting_cell("reduce", "strategy", "ite
 _add("setting:reduce:scitype:unknown", _setting_cell("reduce", "scitype", "tabular"))
 for _s in ("mean", "drift"):
     _add("setting:naive:window-too-long:%s" % _s, _setting_cell("naive-window-too-long", None, _s))
+for _s in ("by-one", "by-some", "twice"):
+    _add("setting:naive:seasonal-period-longer-than-series:%s" % _s, _setting_cell("naive-season-too-long", None, _s))
 for _s in ("recursive", "direct", "multioutput", "dirrec"):
     _add("setting:reduce:window-too-long:%s" % _s, _setting_cell("reduce-window-too-long", None, _s))
 for _s in ("sliding", "expanding"):
